@@ -193,6 +193,7 @@ def run(tier, replay=None):
     run_r15(chk, F.functions)
     run_r15(chk, facts.extract(CONTROL_UNITS).functions, control=True)
     run_r16(chk, F.functions)
+    run_r17(chk, F.functions)
     run_r11(chk, fns)
     run_r12(chk, fns, G, access)
     run_r13(chk, fns)
@@ -1372,6 +1373,54 @@ def run_r16(chk, F_all):
            '%s:%d' % (rel(f['file']), f['line']), ok,
            '' if ok else '`sh_ = ...begin()` is reached whatever `%s` is: skeleton_simplex_range(-1) lists the vertices' % d,
            key='R16|Simplex_tree_skeleton_simplex_iterator|negative-skeleton')
+
+
+def run_r17(chk, F_all):
+    """R17 ordered-range promise: a flat map built / filled with the tag `boost::container::ordered_unique_range` (or
+    `ordered_range`) trusts the caller that the range is sorted and without repeats; given another range it is left
+    unsorted and every later look-up misses members. In the Simplex_tree headers the tagged range is never (derived
+    from) a parameter of a *public* function: it is the member range of another dictionary (already ordered), a
+    parameter of a constructor of Siblings (an internal type: its callers are checked here too), or a local the
+    function sorted itself."""
+    n = 0
+    for f in F_all:
+        if f.get('body') is None or f.get('inst') not in (0, 2) or '/Simplex_tree/' not in f['file']:
+            continue
+        pnames = {q['n'] for q in f.get('params', [])}
+        derived = set(pnames)          # locals computed from a parameter (adaptors, copies)
+        for _ in range(3):
+            for y in ir.walk(f['body']):
+                if y.get('k') == 'VarDecl' and y.get('init') is not None and y['n'] not in derived and \
+                        {z.get('n') for z in ir.walk(y['init']) if z.get('k') == 'DeclRefExpr'} & derived:
+                    derived.add(y['n'])
+        sorted_locals = {ir.show(ir.call_args(x)[0]).split('.')[0].split('(')[-1] for x in ir.walk(f['body'])
+                         if ir.is_call(x) and ir.call_name(x) in ('sort', 'stable_sort') and ir.call_args(x)}
+        for x in ir.walk(f['body']):
+            if x.get('k') not in ('CallExpr', 'CXXMemberCallExpr', 'CXXConstructExpr', 'CXXTemporaryObjectExpr',
+                                  'CXXUnresolvedConstructExpr', 'CXXOperatorCallExpr'):
+                continue
+            args = ir.call_args(x) if ir.is_call(x) else (x.get('c') or [])
+            tagged = [a for a in args if (ir.skipcasts(a) or {}).get('k') == 'DeclRefExpr' and
+                      ('ordered_unique_range' in ir.show(a) or 'ordered_range' in ir.show(a))]
+            if not tagged or any('ordered' in ir.show(c) for a in args for c in (a.get('c') or []) if c is not a
+                                 and a not in tagged and False):
+                continue
+            rest = [a for a in args if a not in tagged]
+            roots = {y.get('n') for a in rest for y in ir.walk(a) if y.get('k') == 'DeclRefExpr'}
+            if not roots:
+                continue
+            n += 1
+            from_param = roots & derived
+            internal = (f.get('clsname') or '').endswith('Siblings') or f['name'].startswith('Simplex_tree_siblings')
+            member_range = any('members' in ir.show(a) for a in rest)
+            ok = (not from_param) or internal or member_range or bool(roots & sorted_locals)
+            chk.ob('R17-ordered-range', '%s: the range handed over as "ordered and unique" is one the library ordered '
+                   'itself' % f['name'].split('<')[0], '%s:%s' % (rel(f['file']), x.get('l')), ok,
+                   '' if ok else '`%s` comes from the caller (%s) and nothing sorts it: an unsorted or repeating batch '
+                   'leaves the flat map unsorted, find() then misses present simplices' % (
+                       ir.show(rest[0])[:50], ', '.join(sorted(from_param))),
+                   key='R17|%s|ordered-range' % f['name'].split('<')[0])
+    chk.expect_count('R17', 'insertions tagged ordered_unique_range', n, 1)
 
 
 def run_r10(chk, fns):
